@@ -103,6 +103,16 @@ def _chain(fn_nary, binop, form, parts):
     raise ValueError(form)
 
 
+def _has_not(c):
+    if c[0] == "not":
+        return True
+    if c[0] in ("and", "or"):
+        return any(_has_not(x) for x in c[2])
+    if c[0] == "sub":
+        return _has_not(c[3])
+    return False
+
+
 def build_cond(c, V):
     """Must be called inside symbolic_mode()."""
     k = c[0]
@@ -119,6 +129,18 @@ def build_cond(c, V):
         return cmemo[key]
     if k in ("cmp", "in"):
         return _build_leaf(c, V)
+    if cmemo is not None and k in ("and", "or") and getattr(V, "share_connectives", False) and not _has_not(c):
+        # a whole disjunction / conjunction OBJECT built once and used as an operand in several queries
+        # (either = or_(a, b); q1 = ...and_(c1, either)...; q2 = ...and_(c2, either)...)
+        key = json.dumps(c, sort_keys=True)
+        if key in cmemo and key not in V.cused:
+            V.cused.add(key)
+            return cmemo[key]
+        if key not in V.cused:
+            V.cused.add(key)
+            fn, op = (and_, lambda a, b: a & b) if k == "and" else (or_, lambda a, b: a | b)
+            cmemo[key] = _chain(fn, op, c[1], [build_cond(x, V) for x in c[2]])
+            return cmemo[key]
     if k == "truth":
         memo = getattr(V, "memo", None)
         if memo is not None and c[1][0] in ("attr", "idx", "call"):
